@@ -379,6 +379,13 @@ def apply_event(W, ev):
         ld.cell = cell
         ld.buckets = W.buckets
         ld.load_cell()
+    elif kind == 'alloc_update':
+        # Loader.load_allocations on an existing allocation: update(reserved,
+        # rank, rank_adjustment, max_utilization) with new values
+        key = tuple(ev[1])
+        res, rank, adj, mu = ev[2]
+        W.allocs[key].update(res, rank, adj, mu)
+        W.alloc_terms[key] = (rank, adj if adj is not None else 0)
     elif kind == 'bucket_state':
         # Node.set_state on a rack / pod (nothing in the master does this
         # today; the API allows it)
